@@ -823,6 +823,15 @@ def report(ctx, model_key: dict, env: Env, gl: OR.GraphLike, ins, outs, in_by_na
             continue
         done.add(clause)
         exc = (info["exc"], info.get("enclosing")) if "exc" in info else None
+        if clause == "covered-but-raised" and info.get("enclosing"):
+            # raise site and class of the enclosing initializers are kept by the shrinker and make up the signature: an
+            # occurrence of a signature this shard already reported (with a shrunk witness) is counted, not shrunk again
+            early = f"extract|covered-but-raised|{info['exc']}|{info['enclosing']}"
+            if any(v["signature"] == early for v in ctx.violations):
+                ctx.count("raw:" + clause)
+                ctx.count("violations_counted_without_shrinking_again")
+                ctx.violation(early, "", None)
+                continue
         name_mode_in = dict((id(v), b) for v, b in zip(ins, in_by_name))
         name_mode_out = dict((id(v), b) for v, b in zip(outs, out_by_name))
         default_mode = all(list(in_by_name) + list(out_by_name))  # values the shrinker adds are named like the rest
